@@ -17,6 +17,7 @@ import (
 	"go/types"
 	"os"
 	"sort"
+	"strings"
 )
 
 // lin is sum(co[a]*a) + c over atoms a (canonical expression strings).
@@ -71,6 +72,13 @@ func (p *prover) linN(e ast.Expr, depth int) (lin, bool) {
 	case *ast.BinaryExpr:
 		switch t.Op {
 		case token.ADD, token.SUB:
+			// variable +- variable may wrap around unless both are sizes (bounded by some length on both
+			// sides): `left + length` with a user-supplied length is not arithmetic we may reason about
+			_, cx := constInt(p.info, t.X)
+			_, cy := constInt(p.info, t.Y)
+			if !cx && !cy && !(p.sizeBounded(t.X, 0) && p.sizeBounded(t.Y, 0)) {
+				break
+			}
 			x, ok1 := p.linN(t.X, depth+1)
 			y, ok2 := p.linN(t.Y, depth+1)
 			if ok1 && ok2 {
@@ -327,7 +335,7 @@ func (s *liaSys) infeasible() bool {
 				ca, cb := a.co[bestV], -b.co[bestV]
 				g := gcd64(ca, cb)
 				// (cb/g)*a + (ca/g)*b eliminates bestV
-				r := a.scale(cb / g).add(b, ca/g)
+				r := a.scale(cb/g).add(b, ca/g)
 				delete(r.co, bestV)
 				next = append(next, r)
 			}
@@ -416,6 +424,7 @@ func walkRelFacts(facts []Fact, f func(x, y ast.Expr, op token.Token)) {
 // branch facts in their general linear form.
 func (p *prover) liaSystem(facts []Fact, mention ...ast.Expr) *liaSys {
 	d := p.system(facts, mention...)
+	p.bnd = d
 	s := &liaSys{}
 	us := make([]string, 0, len(d.w))
 	for u := range d.w {
@@ -478,6 +487,7 @@ func (p *prover) liaSystem(facts []Fact, mention ...ast.Expr) *liaSys {
 
 // proveIndexLIA: 0 <= i < len(x) by linear arithmetic.
 func (p *prover) proveIndexLIA(ix *ast.IndexExpr, facts []Fact) bool {
+	s := p.liaSystem(facts, ix.Index, ix.X)
 	i, ok := p.linN(ix.Index, 0)
 	if !ok {
 		return false
@@ -486,7 +496,6 @@ func (p *prover) proveIndexLIA(ix *ast.IndexExpr, facts []Fact) bool {
 	if !ok {
 		return false
 	}
-	s := p.liaSystem(facts, ix.Index, ix.X)
 	s.addLE0(L.scale(-1)) // len >= 0
 	lower := s.proves(i.scale(-1))
 	up := i.add(L, -1)
@@ -508,6 +517,7 @@ func (p *prover) proveSliceLIA(sx *ast.SliceExpr, facts []Fact) bool {
 	if sx.Slice3 {
 		return false
 	}
+	s := p.liaSystem(facts, sx.Low, sx.High, sx.X)
 	L, ok := p.lenLin(sx.X)
 	if !ok {
 		return false
@@ -523,7 +533,6 @@ func (p *prover) proveSliceLIA(sx *ast.SliceExpr, facts []Fact) bool {
 			return false
 		}
 	}
-	s := p.liaSystem(facts, sx.Low, sx.High, sx.X)
 	s.addLE0(L.scale(-1))
 	return s.proves(lo.scale(-1)) && s.proves(lo.add(hi, -1)) && s.proves(hi.add(L, -1))
 }
@@ -614,6 +623,58 @@ func (pe *panicEngine) callerEstablished(info *types.Info, self ast.Node, callee
 			return "" // recursive
 		}
 	}
+	var mention []ast.Expr
+	switch t := e.(type) {
+	case *ast.IndexExpr:
+		mention = []ast.Expr{t.Index, t.X}
+	case *ast.SliceExpr:
+		mention = []ast.Expr{t.Low, t.High, t.X}
+	}
+	type siteCtx struct {
+		pr  *prover
+		sys *liaSys
+	}
+	var ctxs []siteCtx
+	intParamSized := map[int]bool{}
+	for i, p := range params {
+		if u, ok := p.obj.Type().Underlying().(*types.Basic); ok && u.Info()&types.IsInteger != 0 {
+			intParamSized[i] = true
+		}
+	}
+	for _, s := range sites {
+		body := s.decl.Body
+		for _, fl := range funcLitsIn(s.decl.Body) {
+			if within(fl.Body, s.call.Pos()) && within(body, fl.Pos()) {
+				body = fl.Body
+			}
+		}
+		vi := analyseVars(info, s.decl)
+		fg := NewFGraph(body, info)
+		fg.SolveFacts(vi)
+		callerPr := &prover{info: info, vi: vi, fg: fg, body: body}
+		if len(s.call.Args) != len(params) {
+			return ""
+		}
+		sys := callerPr.liaSystem(fg.FactsAtPos(s.call.Pos()), s.call.Args...)
+		for i := range params {
+			if intParamSized[i] && !callerPr.sizeBounded(s.call.Args[i], 0) {
+				intParamSized[i] = false
+			}
+		}
+		ctxs = append(ctxs, siteCtx{callerPr, sys})
+	}
+	// an integer parameter that is a size at every call site is a size in the callee
+	cs := calleePr.liaSystem(calleeFacts, mention...)
+	if calleePr.assumeB == nil {
+		calleePr.assumeB = map[string]bool{}
+	}
+	for i, p := range params {
+		if intParamSized[i] {
+			calleePr.assumeB[calleePr.canon(p.id)] = true
+		}
+	}
+	defer func() { calleePr.assumeB = nil }()
+	cs = calleePr.liaSystem(calleeFacts, mention...)
 	// goals in the callee's atoms
 	var goals []lin
 	var L lin
@@ -667,29 +728,8 @@ func (pe *panicEngine) callerEstablished(info *types.Info, self ast.Node, callee
 			}
 		}
 	}
-	var mention []ast.Expr
-	switch t := e.(type) {
-	case *ast.IndexExpr:
-		mention = []ast.Expr{t.Index, t.X}
-	case *ast.SliceExpr:
-		mention = []ast.Expr{t.Low, t.High, t.X}
-	}
-	for _, s := range sites {
-		body := s.decl.Body
-		for _, fl := range funcLitsIn(s.decl.Body) {
-			if within(fl.Body, s.call.Pos()) && within(body, fl.Pos()) {
-				body = fl.Body
-			}
-		}
-		vi := analyseVars(info, s.decl)
-		fg := NewFGraph(body, info)
-		fg.SolveFacts(vi)
-		callerPr := &prover{info: info, vi: vi, fg: fg, body: body}
-		if len(s.call.Args) != len(params) {
-			return ""
-		}
-		sys := callerPr.liaSystem(fg.FactsAtPos(s.call.Pos()), s.call.Args...)
-		cs := calleePr.liaSystem(calleeFacts, mention...)
+	for si, s := range sites {
+		callerPr, sys := ctxs[si].pr, ctxs[si].sys
 		sys.rows = append(sys.rows, cs.rows...)
 		sys.addLE0(L.scale(-1))
 		for i, p := range params {
@@ -747,4 +787,78 @@ func callerLen(pr *prover, arg ast.Expr) lin {
 		}
 	}
 	return linAtom(pr.lenCanon(arg))
+}
+
+// sizeBounded: e is known to lie between 0 (or a constant) and some length
+// or constant, so adding two such terms cannot wrap around (lengths are
+// bounded by the address space).
+func (p *prover) sizeBounded(e ast.Expr, depth int) bool {
+	e = ast.Unparen(e)
+	if depth > 4 {
+		return false
+	}
+	if _, ok := constInt(p.info, e); ok {
+		return true
+	}
+	switch t := e.(type) {
+	case *ast.CallExpr:
+		if n := calleeName(p.info, t); n == "builtin.len" || n == "builtin.cap" {
+			return true
+		}
+		if isConversion(p.info, t) && len(t.Args) == 1 {
+			return p.sizeBounded(t.Args[0], depth+1)
+		}
+	case *ast.BinaryExpr:
+		if t.Op == token.ADD || t.Op == token.SUB {
+			return p.sizeBounded(t.X, depth+1) && p.sizeBounded(t.Y, depth+1)
+		}
+	}
+	l := p.linear(e)
+	if !l.ok {
+		return false
+	}
+	if p.assumeB[l.base] {
+		return true
+	}
+	if p.bnd == nil {
+		return false
+	}
+	return p.bnd.reachesSize(l.base, true) && p.bnd.reachesSize(l.base, false)
+}
+
+// reachesSize: is base bounded above (up) / below (!up) by a constant or a length term?
+func (d *dcs) reachesSize(base string, up bool) bool {
+	isSize := func(b string) bool { return b == "" || strings.HasPrefix(b, "len(") || strings.HasPrefix(b, "cap(") }
+	seen := map[string]bool{base: true}
+	stack := []string{base}
+	for len(stack) > 0 {
+		u := stack[len(stack)-1]
+		stack = stack[:len(stack)-1]
+		if up {
+			// u - v <= c : v bounds u from above
+			for v := range d.w[u] {
+				if isSize(v) {
+					return true
+				}
+				if !seen[v] {
+					seen[v] = true
+					stack = append(stack, v)
+				}
+			}
+		} else {
+			// v - u <= c : v bounds u from below... only the constant zero counts as a floor
+			for v, m := range d.w {
+				if _, ok := m[u]; ok {
+					if v == "" {
+						return true
+					}
+					if !seen[v] {
+						seen[v] = true
+						stack = append(stack, v)
+					}
+				}
+			}
+		}
+	}
+	return false
 }
